@@ -38,6 +38,7 @@ def monitor(ctx, modname, name, post, label=None):
     _originals[(modname, name)] = original
     label = label or f'{modname}.{name}'
     posts = [post]
+    memo = {}
 
     def wrapper(*args, **kwargs):
         if _active[0]:
@@ -46,6 +47,7 @@ def monitor(ctx, modname, name, post, label=None):
         # table the callee might modify; the token is handed to the post-hook as a sixth argument
         tokens = [p.pre(args, kwargs) if hasattr(p, 'pre') else None for p in posts]
         result = original(*args, **kwargs)
+        _stability(ctx, label, args, kwargs, result, memo)
         _active[0] = True
         try:
             for p, tok in zip(posts, tokens):
@@ -70,6 +72,40 @@ def monitor(ctx, modname, name, post, label=None):
     wrapper._posts = posts
     setattr(mod, name, wrapper)
     return original
+
+
+def _arrays(o, out):
+    import numpy as np
+    if isinstance(o, np.ndarray):
+        out.append(o)
+    elif isinstance(o, (tuple, list)) and len(o) <= 8:
+        for e in o:
+            _arrays(e, out)
+    return out
+
+
+def _stability(ctx, label, args, kwargs, result, memo):
+    """A value the function returned earlier must not change when the function is called again (a result that is a
+    view of internal scratch storage is silently overwritten by the next call).  Results that share memory with an
+    argument are exempt: the caller owns that storage."""
+    import numpy as np
+    prev = memo.get('last')
+    if prev is not None:
+        arrs, copies = prev
+        for a, c in zip(arrs, copies):
+            if a.shape != c.shape or not np.array_equal(a, c, equal_nan=a.dtype.kind == 'f'):
+                ctx.violation('result-stability', f'aliasing:{label}',
+                              f'an array returned by an earlier call of {label} changed after a later call '
+                              f'(it aliases storage the function reuses)', before=c[:20], after=a[:20])
+                break
+        else:
+            ctx.ok('result-stability')
+    memo['last'] = None
+    res = [a for a in _arrays(result, []) if 0 < a.size <= 4096]
+    if res:
+        ins = _arrays(list(args) + list(kwargs.values()), [])
+        if not any(np.may_share_memory(a, b) for a in res for b in ins):
+            memo['last'] = (res, [a.copy() for a in res])
 
 
 class quiet:
